@@ -446,7 +446,7 @@ def race_signature(text):
 
 
 def write_replay(prop, name, payload):
-    d = os.path.join(VERIF, "replays")
+    d = os.environ.get("VERIF_REPLAY_DIR") or os.path.join(VERIF, "replays")
     os.makedirs(d, exist_ok=True)
     path = os.path.join(d, "%s-%s.json" % (prop, name))
     with open(path, "w") as f:
@@ -459,7 +459,7 @@ def write_evidence(prop, tier, seed, coverage, wall, violations, assumptions, ex
           "coverage": coverage, "assumptions": assumptions, "wall_s": round(wall, 2), "violations": int(violations)}
     if extra:
         ev.update(extra)
-    d = os.path.join(VERIF, "evidence")
+    d = os.environ.get("VERIF_EVIDENCE_DIR") or os.path.join(VERIF, "evidence")
     os.makedirs(d, exist_ok=True)
     with open(os.path.join(d, prop + ".json"), "w") as f:
         json.dump(ev, f, indent=1, sort_keys=True)
